@@ -94,10 +94,49 @@ def _cm_ok(fn):
              for s in ast.walk(fn) if isinstance(s, ast.stmt))
 
 
-def _callee_ok(fn, private_only=True):
+def _gen_ok(fn):
+  """A private generator helper with exactly one `yield E` statement, outside
+  any try / with: `for x in helper(): BODY` is its body with `x = E; BODY` at
+  the yield."""
   a = fn.args
   if a.vararg or a.kwarg or a.posonlyargs:
     return False
+  if not fn.name.startswith('_') or fn.name.startswith('__'):
+    return False
+  for d in fn.decorator_list:
+    if not (isinstance(d, ast.Name) and d.id in ('staticmethod',
+                                                 'classmethod')):
+      return False
+  for d in list(a.defaults) + [x for x in a.kw_defaults if x is not None]:
+    if not isinstance(d, ast.Constant):
+      return False
+  ys = [n for n in ast.walk(fn) if isinstance(n, (ast.Yield, ast.YieldFrom))]
+  if len(ys) != 1 or isinstance(ys[0], ast.YieldFrom) or ys[0].value is None:
+    return False
+  if _count_stmts(fn) > MAX_STMTS:
+    return False
+  for n in ast.walk(fn):
+    if n is fn:
+      continue
+    if isinstance(n, (ast.FunctionDef, ast.AsyncFunctionDef, ast.ClassDef,
+                      ast.Await, ast.Global, ast.Nonlocal, ast.Return,
+                      ast.Lambda)):
+      return False
+    if isinstance(n, (ast.Try, ast.With)) and any(
+        x is ys[0] for x in ast.walk(n)):
+      return False  # the consumer's exceptions would meet the helper's handlers
+  return any(isinstance(s, ast.Expr) and s.value is ys[0]
+             for s in ast.walk(fn) if isinstance(s, ast.stmt))
+
+
+def _callee_ok(fn, private_only=True):
+  a = fn.args
+  if a.kwarg or a.posonlyargs:
+    return False
+  if a.vararg is not None and any(
+      isinstance(n, ast.Name) and n.id == a.vararg.arg and
+      not isinstance(n.ctx, ast.Load) for n in ast.walk(fn)):
+    return False  # the *args tuple is rebound
   # a default is evaluated once, when the function is defined: only constant
   # defaults may be re-evaluated at the call site
   for d in list(a.defaults) + [x for x in a.kw_defaults if x is not None]:
@@ -188,11 +227,19 @@ def _contains_return(st):
   return False
 
 
+_FLAGS = []
+_FLAG_COUNTER = [0]
+
+
 def _elim_returns(stmts, ret):
   """Return-free version of stmts; (new statements, all paths returned)."""
   out = []
   for i, st in enumerate(stmts):
     if isinstance(st, ast.Return):
+      for fl in _FLAGS:
+        out.append(ast.copy_location(ast.Assign(
+            targets=[ast.Name(id=fl, ctx=ast.Store())],
+            value=ast.Constant(value=True)), st))
       if ret is not None:
         val = st.value if st.value is not None else ast.Constant(value=None)
         out.append(ast.copy_location(ast.Assign(
@@ -296,6 +343,29 @@ def _elim_returns(stmts, ret):
       new.body = body
       new.orelse = r
       out.append(new)
+      return out, rt
+    if isinstance(st, ast.With) and rest:
+      # `with L: if c: return X; A` + rest: a flag remembers that the block
+      # returned; the rest runs (outside the with) only when it did not
+      _FLAG_COUNTER[0] += 1
+      flag = 'returned_inl_flag%d' % _FLAG_COUNTER[0]
+      _FLAGS.append(flag)
+      try:
+        body, bt = _elim_returns(st.body, ret)
+      finally:
+        _FLAGS.pop()
+      out.append(ast.copy_location(ast.Assign(
+          targets=[ast.Name(id=flag, ctx=ast.Store())],
+          value=ast.Constant(value=False)), st))
+      out.append(ast.copy_location(ast.With(items=st.items,
+                                            body=body or [ast.Pass()]), st))
+      if bt:
+        return out, True
+      r, rt = _elim_returns(rest, ret)
+      out.append(ast.copy_location(ast.If(
+          test=ast.UnaryOp(op=ast.Not(), operand=ast.Name(id=flag,
+                                                          ctx=ast.Load())),
+          body=r or [ast.Pass()], orelse=[]), st))
       return out, rt
     raise NotInlinable('return inside %s' % type(st).__name__)
   return out, False
@@ -448,6 +518,9 @@ class Inliner(object):
         self.class_methods[st.name] = ms
         for k in ms:
           self.method_names[k] = self.method_names.get(k, 0) + 1
+    self.classes = {st.name: st for st in tree.body
+                    if isinstance(st, ast.ClassDef)}
+    self.unfolded_classes = set()
     self.counter = 0
     self.inlined_calls = {}  # id(fn) -> count
     self.log = []
@@ -461,6 +534,14 @@ class Inliner(object):
       fn = ms.get(f.attr)
       if not (recv in ('self', 'cls') or recv == cls_name):
         fn = None  # handled below as a foreign receiver
+        # `OtherClass.factory(...)`: a static / class method of another class
+        # of this module named explicitly (no dynamic dispatch involved)
+        oms = self.class_methods.get(recv)
+        if oms is not None and oms.get(f.attr) is not None and _kind(
+            oms[f.attr]) in ('static', 'class') and recv not in _stores(
+                caller) and recv not in [a.arg for a in caller.args.args]:
+          return oms[f.attr], '%s.%s' % (recv, f.attr), _kind(oms[f.attr]), \
+              recv
       if fn is not None and (recv in ('self', 'cls') or recv == cls_name):
         if self.method_names.get(f.attr, 0) != 1:
           return None  # another class of the module defines it too
@@ -503,7 +584,7 @@ class Inliner(object):
       return self.module_funcs[f.id], f.id, 'function', None
     return None
 
-  def inlinable(self, fn, qual):
+  def inlinable(self, fn, qual, explicit_class=False):
     if (self.relpath, qual) in self.anchors:
       return False
     if _is_cm(fn):
@@ -511,7 +592,12 @@ class Inliner(object):
     if qual.startswith('<local>.'):
       return _callee_ok(fn, private_only=False) and not fn.decorator_list
     if not _callee_ok(fn):
-      return False
+      # a public static / class method named through its class is fixed at the
+      # call site too; taken when it is a one-expression factory / predicate
+      body = [x for x in fn.body if not _is_docstring(x)]
+      return explicit_class and _kind(fn) in ('static', 'class') and \
+          _callee_ok(fn, private_only=False) and len(body) == 1 and \
+          isinstance(body[0], ast.Return) and body[0].value is not None
     if self.foreign_text('def %s(' % fn.name):
       return False  # possibly overridden / shadowed elsewhere
     return True
@@ -531,7 +617,12 @@ class Inliner(object):
     if kind in ('instance', 'class'):
       implicit = pos[0] if pos else None
       pos = pos[1:]
-    if len(call.args) > len(pos):
+    extra = None
+    if fn.args.vararg is not None:
+      extra = list(call.args[len(pos):])
+      if not all(_simple(a) for a in extra):
+        raise NotInlinable('non-trivial *args')
+    elif len(call.args) > len(pos):
       raise NotInlinable('too many arguments')
     for p, a in zip(pos, call.args):
       bind[p] = a
@@ -603,8 +694,25 @@ class Inliner(object):
       if new != l:
         rename[l] = new
       caller_names.add(new)
+    if extra is not None:
+      # `*args` of the helper: the tuple of the extra positional arguments
+      mapping[fn.args.vararg.arg] = ast.copy_location(ast.Tuple(
+          elts=[_fast_copy(a) for a in extra], ctx=ast.Load()), call)
     sub = _Subst(mapping, rename)
     body = [sub.visit(s) for s in body]
+    if extra is not None:
+      for s_ in body:
+        for c_ in ast.walk(s_):
+          if isinstance(c_, ast.Call) and any(
+              isinstance(x, ast.Starred) and isinstance(x.value, ast.Tuple)
+              for x in c_.args):
+            flat = []
+            for x in c_.args:
+              if isinstance(x, ast.Starred) and isinstance(x.value, ast.Tuple):
+                flat.extend(x.value.elts)  # f(*(a, b)) is f(a, b)
+              else:
+                flat.append(x)
+            c_.args = flat
     if mode == 'tail':
       if not body or not isinstance(body[-1], (ast.Return, ast.Raise)):
         falls = True
@@ -730,6 +838,195 @@ class Inliner(object):
       new.append(tail_return)
     return new
 
+  def expand_with_class(self, st, caller_names):
+    """`with _Helper(args): BODY` over a private class of this module that
+    only stores its arguments, whose __enter__ does nothing and whose __exit__
+    neither looks at the exception nor suppresses it ->
+    `try: BODY finally: <__exit__ body>`."""
+    call = st.items[0].context_expr
+    cls = self.classes.get(call.func.id) if isinstance(
+        call.func, ast.Name) else None
+    if cls is None or not cls.name.startswith('_') or cls.name.startswith(
+        '__') or st.items[0].optional_vars is not None or len(st.items) != 1:
+      return None
+    if any(not (isinstance(b, ast.Name) and b.id == 'object')
+           for b in cls.bases) or cls.keywords or cls.decorator_list:
+      return None
+    if self.foreign_text(cls.name):
+      return None
+    ms = {}
+    for x in cls.body:
+      if _is_docstring(x):
+        continue
+      if not isinstance(x, ast.FunctionDef) or x.decorator_list:
+        return None
+      ms[x.name] = x
+    if set(ms) != {'__init__', '__enter__', '__exit__'}:
+      return None
+    init, enter, exit_ = ms['__init__'], ms['__enter__'], ms['__exit__']
+    for f in (init, enter, exit_):
+      a = f.args
+      if a.vararg or a.kwarg or a.posonlyargs or a.kwonlyargs or a.defaults:
+        return None
+    params = [a.arg for a in init.args.args]
+    if any(isinstance(a, ast.Starred) for a in call.args) or call.keywords or \
+        len(call.args) != len(params) - 1:
+      return None
+    fields = {}
+    for x in init.body:
+      if _is_docstring(x):
+        continue
+      if not (isinstance(x, ast.Assign) and len(x.targets) == 1 and
+              isinstance(x.targets[0], ast.Attribute) and
+              isinstance(x.targets[0].value, ast.Name) and
+              x.targets[0].value.id == params[0] and
+              isinstance(x.value, ast.Name) and x.value.id in params[1:] and
+              x.targets[0].attr not in fields):
+        return None
+      fields[x.targets[0].attr] = params.index(x.value.id) - 1
+    eb = [x for x in enter.body if not _is_docstring(x)]
+    if not (len(eb) == 1 and (isinstance(eb[0], ast.Pass) or (
+        isinstance(eb[0], ast.Return) and (eb[0].value is None or isinstance(
+            eb[0].value, (ast.Name, ast.Constant)))))):
+      return None
+    xparams = [a.arg for a in exit_.args.args]
+    if len(xparams) != 4:
+      return None
+    xb = [x for x in exit_.body if not _is_docstring(x)]
+    if xb and isinstance(xb[-1], ast.Return):
+      v = xb[-1].value
+      if not (v is None or (isinstance(v, ast.Constant) and not v.value)):
+        return None  # may suppress the exception
+      xb = xb[:-1]
+    if not xb:
+      return None
+    for x in xb:
+      for n in ast.walk(x):
+        if isinstance(n, (ast.Return, ast.Yield, ast.YieldFrom, ast.Await,
+                          ast.FunctionDef, ast.Lambda, ast.ClassDef,
+                          ast.Global, ast.Nonlocal)):
+          return None
+        if isinstance(n, ast.Name) and n.id in xparams[1:]:
+          return None  # looks at the exception
+        if isinstance(n, ast.Name) and n.id == xparams[0] and not (
+            isinstance(getattr(n, '_p', None), ast.Attribute)):
+          pass
+    body = _fast_copy(xb)
+    self.counter += 1
+    tag = '_inl%d' % self.counter
+    prefix, mapping = [], {}
+    for attr, idx in fields.items():
+      new = attr.lstrip('_') + tag
+      caller_names.add(new)
+      mapping[attr] = new
+      prefix.append(ast.copy_location(ast.Assign(
+          targets=[ast.Name(id=new, ctx=ast.Store())],
+          value=_fast_copy(call.args[idx])), st))
+    rename = {}
+    for l in sorted(_stores(body)):
+      if l in caller_names:
+        rename[l] = l + tag
+        caller_names.add(l + tag)
+
+    class _Sub(ast.NodeTransformer):
+
+      def visit_Attribute(self, n):
+        if isinstance(n.value, ast.Name) and n.value.id == xparams[0]:
+          if n.attr in mapping and isinstance(n.ctx, ast.Load):
+            return ast.copy_location(ast.Name(id=mapping[n.attr],
+                                              ctx=ast.Load()), n)
+          raise NotInlinable('__exit__ uses self beyond its stored fields')
+        self.generic_visit(n)
+        return n
+
+      def visit_Name(self, n):
+        if n.id == xparams[0]:
+          raise NotInlinable('__exit__ passes self on')
+        if n.id in rename:
+          n.id = rename[n.id]
+        return n
+    body = [_Sub().visit(x) for x in body]
+    tr = ast.copy_location(ast.Try(body=list(st.body), handlers=[], orelse=[],
+                                   finalbody=body), st)
+    return prefix + [tr]
+
+  def expand_for(self, st, call, fn, kind, recv, caller_names):
+    """`for x in helper(args): BODY` over a one-yield private generator ->
+    the helper's body with `x = <yielded value>; BODY` at its yield."""
+    if st.orelse:
+      raise NotInlinable('for-else over a generator helper')
+
+    def jumps(stmts, in_loop):
+      for s_ in stmts:
+        if isinstance(s_, (ast.FunctionDef, ast.AsyncFunctionDef,
+                           ast.ClassDef)):
+          continue
+        if isinstance(s_, ast.Return):
+          return True
+        if isinstance(s_, (ast.Break, ast.Continue)) and not in_loop:
+          return True
+        for x in ast.walk(s_):
+          if isinstance(x, (ast.Yield, ast.YieldFrom)):
+            return True
+        inner = in_loop or isinstance(s_, (ast.For, ast.While))
+        for field in ('body', 'orelse', 'finalbody'):
+          b = getattr(s_, field, None)
+          if isinstance(b, list) and b and isinstance(b[0], ast.stmt) and \
+              jumps(b, inner if field == 'body' else in_loop):
+            return True
+        for h in getattr(s_, 'handlers', None) or []:
+          if jumps(h.body, in_loop):
+            return True
+      return False
+    if jumps(st.body, False):
+      raise NotInlinable('the loop body leaves the loop / yields')
+    marker = '__for_body_marker__'
+    body = _fast_copy([s for s in fn.body if not _is_docstring(s)])
+    ys = [n for s in body for n in ast.walk(s) if isinstance(n, ast.Yield)]
+    probe = ast.FunctionDef(name=fn.name, args=fn.args, body=body,
+                            decorator_list=fn.decorator_list, returns=None)
+    for s in ast.walk(probe):
+      if isinstance(s, ast.Expr) and s.value is ys[0]:
+        s.value = ast.Call(func=ast.Name(id=marker, ctx=ast.Load()),
+                           args=[ys[0].value], keywords=[])
+    names_before = set(caller_names)
+    pre, _ = self.expand(call, probe, kind, recv, caller_names, 'stmt')
+    done, unify = [], []
+
+    def splice(stmts):
+      out = []
+      for s in stmts:
+        if isinstance(s, ast.Expr) and isinstance(s.value, ast.Call) and \
+            isinstance(s.value.func, ast.Name) and s.value.func.id == marker:
+          val = s.value.args[0]
+          if isinstance(val, ast.Name) and val.id not in names_before and \
+              isinstance(st.target, ast.Name) and \
+              st.target.id not in _stores(list(st.body)):
+            # the helper's own local is the loop variable: one name for both
+            unify.append((val.id, st.target.id))
+          else:
+            out.append(ast.copy_location(ast.Assign(
+                targets=[st.target], value=val), st))
+          out.extend(st.body)
+          done.append(1)
+          continue
+        for field in ('body', 'orelse', 'finalbody'):
+          b = getattr(s, field, None)
+          if isinstance(b, list) and b and isinstance(b[0], ast.stmt):
+            setattr(s, field, splice(b))
+        out.append(s)
+      return out
+    new = splice(pre)
+    if len(done) != 1:
+      raise NotInlinable('yield not found after expansion')
+    if unify:
+      old_name, new_name = unify[0]
+      for s in new:
+        for n in ast.walk(s):
+          if isinstance(n, ast.Name) and n.id == old_name:
+            n.id = new_name
+    return new
+
   # -- a whole function
   def process_function(self, caller, cls_name, qual):
     caller_names = _all_names(caller)
@@ -792,6 +1089,45 @@ class Inliner(object):
               blk[i:i + len(new)] = sub_blk
               i += len(sub_blk)
               continue
+        if depth < MAX_DEPTH and isinstance(st, ast.With) and \
+            len(st.items) == 1 and isinstance(st.items[0].context_expr,
+                                              ast.Call):
+          try:
+            new = self.expand_with_class(st, caller_names)
+          except NotInlinable:
+            new = None
+          if new is not None:
+            blk[i:i + 1] = new
+            cname = st.items[0].context_expr.func.id
+            self.log.append('%s: context-manager class %s unfolded in %s' % (
+                self.relpath, cname, qual))
+            self.unfolded_classes.add(cname)
+            continue
+        if depth < MAX_DEPTH and isinstance(st, ast.For) and isinstance(
+            st.iter, ast.Call):
+          call = st.iter
+          r = self.resolve(call, cls_name, caller)
+          if r is not None and _gen_ok(r[0]) and \
+              (self.relpath, r[1]) not in self.anchors and r[1] not in active \
+              and not self.foreign_text('def %s(' % r[0].name):
+            fn, q, kind, recv = r
+            try:
+              new = self.expand_for(st, call, fn, kind, recv, caller_names)
+            except NotInlinable as ex:
+              self.log.append('%s: %s not inlined into %s (%s)' % (
+                  self.relpath, q, qual, ex))
+              new = None
+            if new is not None:
+              blk[i:i + 1] = new
+              self.inlined_calls[id(fn)] = self.inlined_calls.get(
+                  id(fn), 0) + 1
+              self.log.append('%s: %s inlined into %s (for)' % (
+                  self.relpath, q, qual))
+              sub_blk = blk[i:i + len(new)]
+              do_block(sub_blk, active | {q}, depth + 1)
+              blk[i:i + len(new)] = sub_blk
+              i += len(sub_blk)
+              continue
         if depth < MAX_DEPTH and not isinstance(
             st, (ast.FunctionDef, ast.AsyncFunctionDef, ast.ClassDef)):
           cands = []
@@ -802,7 +1138,11 @@ class Inliner(object):
             if r is None:
               continue
             fn, q, kind, recv = r
-            if fn is caller or q in active or not self.inlinable(fn, q):
+            explicit = isinstance(call.func, ast.Attribute) and isinstance(
+                call.func.value, ast.Name) and \
+                call.func.value.id in self.class_methods
+            if fn is caller or q in active or not self.inlinable(
+                fn, q, explicit_class=explicit):
               continue
             try:
               if isinstance(st, ast.Return) and st.value is call:
@@ -949,6 +1289,12 @@ class Inliner(object):
         self.tree.body.remove(st)
         self.log.append('%s: %s dropped (inlined everywhere)' % (self.relpath,
                                                                  st.name))
+      elif isinstance(st, ast.ClassDef) and st.name in \
+          self.unfolded_classes and refs.get(st.name, 0) == 0 and \
+          not self.foreign_text(st.name):
+        self.tree.body.remove(st)
+        self.log.append('%s: class %s dropped (unfolded everywhere)' % (
+            self.relpath, st.name))
       elif isinstance(st, ast.ClassDef):
         for x in list(st.body):
           if isinstance(x, ast.FunctionDef) and dead(
